@@ -225,7 +225,7 @@ def run_measure(case) -> None:
                 results = _deser_measure(params, arr)
             else:
                 results = sock.recv_measure(number=1, expect_phi_plus=case["expect"])
-            stack.expect("recv", "M", 1, [{"bell_state": bell, "measurement_outcome": b}])
+            stack.expect("recv", "M", 1, [{"bell_state": bell, "measurement_outcome": b, "as_qlink10": case.get("wire") in ("qlink10", "qlink10-int"), "qlink10_int": case.get("wire") == "qlink10-int"}])
             try:
                 conn.flush()
             except Exception as e:
@@ -393,6 +393,10 @@ def measure_cases() -> List[Dict[str, Any]]:
             for bell in range(4):
                 for expect in (True, False):
                     out.append({"kind": "measure", "route": route, "basis": basis, "bell": bell, "expect": expect})
+                    if route == "explicit" or basis in ("Z", "MZ"):
+                        # the same with the response delivered as a qlink-interface 1.0 object (Bell state as that package's enum / as a plain integer)
+                        out.append({"kind": "measure", "route": route, "basis": basis, "bell": bell, "expect": expect, "wire": "qlink10"})
+                        out.append({"kind": "measure", "route": route, "basis": basis, "bell": bell, "expect": expect, "wire": "qlink10-int"})
             for bells in itertools.product(range(4), repeat=2):
                 out.append({"kind": "measure_multi", "route": route, "basis": basis, "bells": list(bells), "raws": [bells[0] % 2, (bells[1] // 2) % 2], "expect": True})
             for bells in ((1, 2, 3), (3, 0, 1), (2, 2, 0, 1)):
